@@ -326,8 +326,10 @@ def task_roundtrip(tier, seed, arg):
             if not isatom(frag):
                 stack.extend(frag)
         if evals % 50 == 1:
-            nm = "name %d" % evals
-            res = res + check_name(f, nm)
+            # names are arbitrary text: apostrophes, quotes, backslashes and percent signs are shown as they are
+            extra = ["Zeise's salt", 'the "blue" phase', "back\\slash", "100%% pure", "{curly} %s", "tab\there"][(evals // 50) % 6]
+            for nm in ("name %d" % evals, extra):
+                res = res + check_name(f, nm)
         if len(samples) < 5 and evals % 211 == 3:
             samples.append(dict(source=source, table=tname, str=s, structure=structure_json(f.structure)))
         for kind, cause, observed, expected in res:
